@@ -26,7 +26,7 @@ type ltScn struct {
 	Interval time.Duration
 	T6       time.Duration
 	Plan     []int // per probe: 0 at once, 1 T6/4, 2 T6/2, 3 T6-15ms, 4 T6+15ms, 5 never
-	Extra    []int // per probe: 0 none, 1 peer Linktest.req, 2 orphan Linktest.rsp, 3 orphan Select.rsp
+	Extra    []int // per probe: 0 none, 1 peer Linktest.req, 2 orphan Linktest.rsp, 3 orphan Select.rsp, 4 a data secondary with the probe's system bytes
 }
 
 var ltPlanNames = []string{"at-once", "T6/4", "T6/2", "T6-15ms", "T6+15ms", "never"}
@@ -55,7 +55,7 @@ func buildLinktest() core.BuildFunc {
 		n := 3 + t.Choose("scn", 6)
 		for i := 0; i < n; i++ {
 			sc.Plan = append(sc.Plan, t.Weighted("scn", 3, 2, 3, 3, 2, 1))
-			sc.Extra = append(sc.Extra, t.Weighted("scn", 4, 2, 2, 1))
+			sc.Extra = append(sc.Extra, t.Weighted("scn", 4, 2, 2, 1, 2))
 		}
 		h.sc = sc
 		supp := sc.Suppress
@@ -130,6 +130,12 @@ func (h *ltHarness) send(hd refhsms.Header, expect *refhsms.Header, why string) 
 	}
 }
 
+func (h *ltHarness) send2(hd refhsms.Header, body []byte) {
+	if h.c.Alive() {
+		h.c.SendFrame(hd, body)
+	}
+}
+
 func (h *ltHarness) poll() {
 	w, sc := h.w, h.sc
 	if h.c == nil {
@@ -156,6 +162,12 @@ func (h *ltHarness) poll() {
 				&refhsms.Header{Session: 0xFFFF, SType: refhsms.STLinktestRsp, Sys: barrierSys}, "barrier")
 
 			continue
+		}
+		if sc.Extra[k] == 4 {
+			// a data secondary (even function, no W-bit) that happens to carry the system bytes of the open
+			// Linktest transaction: it is data for the handlers; the transaction stays open for its answer
+			w.Probe("data_secondary_with_system_bytes_of_open_control_transaction")
+			h.send2(refhsms.DataHeader(0xFFFF, 1, 2, false, f.H.Sys), refhsms.ASCII("twin"))
 		}
 		rsp := refhsms.Header{Session: 0xFFFF, SType: refhsms.STLinktestRsp, Sys: f.H.Sys}
 		base := f.WrittenAt - w.Now() // (<= 0) delays count from the instant the library wrote the probe
@@ -195,7 +207,7 @@ func (h *ltHarness) poll() {
 			w.After(at, "linktest-answer", func() { h.pending--; h.send(rsp, exp, why) })
 		}
 		// an extra frame somewhere inside this probe's T6 window
-		if x := sc.Extra[k]; x != 0 {
+		if x := sc.Extra[k]; x != 0 && x != 4 {
 			h.extraN++
 			sys := 0x40000000 + h.extraN
 			at := time.Duration(w.T.Choose("peer", int(sc.T6/time.Millisecond))) * time.Millisecond
